@@ -106,6 +106,15 @@ def k1(F, res):
             res.bad('parse/' + v, r)
 
 
+def unwrap_str(t):
+    """`as_str(x)` / `as_ref(x)` / `deref(x)` / `borrow(x)` of a name is that name"""
+    while True:
+        m = re.match(r'^(as_str|as_ref|deref|borrow|as_deref)\((.*)\)$', t)
+        if not m:
+            return t
+        t = m.group(2)
+
+
 def k2(F, res):
     if ENS not in F.hir:
         res.error('anchor lost: emit_name_section')
@@ -142,7 +151,7 @@ def k2(F, res):
                 if pending is None:
                     verdict['emit/%s/entries' % n] = 'the %s name map is appended without entries' % n
                     continue
-                idx, name = show(pending['args'][1]), show(pending['args'][2])
+                idx, name = show(pending['args'][1]), unwrap_str(show(pending['args'][2]))
                 src = show(pending['loops'][-1])
                 good = idx.startswith('%s(cx.indices, ' % idxfn) and ('cx.module.%s.' % coll) in idx and idx.endswith('.id)') \
                     and ('cx.module.%s.' % coll) in name and name.endswith('.name!') \
@@ -176,7 +185,7 @@ def k2(F, res):
     ia = [e for e in tr if e['callee'].endswith('IndirectNameMap::append')]
     goodl = len(la) == 1 and len(ia) == 1
     if goodl:
-        li, ln = show(la[0]['args'][1]), show(la[0]['args'][2])
+        li, ln = show(la[0]['args'][1]), unwrap_str(show(la[0]['args'][2]))
         fi = show(ia[0]['args'][1])
         fid = fi[len('get_func_index(cx.indices, '):-1] if fi.startswith('get_func_index(cx.indices, ') else None
         goodl = fid is not None and ('get(cx.indices.locals, %s)' % fid) in li and 'cx.module.locals' in ln and ln.endswith('.name!') \
